@@ -284,6 +284,14 @@ def _channel_wiring(res: Result, fi: FuncInfo, obj_names: Set[str], label: str) 
                     res.check("WIRING", "%s: %s.%s <- [%s]" % (label, src(t.value), t.attr, "][".join(keys)), keys[-1] == t.attr, fi.loc(n), fi.qual,
                               norm_stmt(n), "the %s channel stores the setting '%s' into the field '%s'" % (label, keys[-1], t.attr),
                               key="WIRING/%s/%s<-%s" % (fi.qual, t.attr, keys[-1]))
+        if isinstance(n, ast.Call) and call_name(n) == "update" and isinstance(n.func.value, ast.Attribute) and len(n.args) == 1 \
+                and (dotted(n.func.value.value) or "") in obj_names:
+            keys = _dict_reads(n.args[0])
+            if keys and keys[-1] in KINDS:
+                n_inst += 1
+                f = n.func.value.attr
+                res.check("WIRING", "%s: %s.update(...[%s])" % (label, src(n.func.value), keys[-1]), f == keys[-1], fi.loc(n), fi.qual, src(n)[:100],
+                          "the %s channel merges '%s' settings into '%s'" % (label, keys[-1], f), key="WIRING/%s/%s<-%s(update)" % (fi.qual, f, keys[-1]))
         if isinstance(n, ast.For) and isinstance(n.iter, ast.Call) and call_name(n.iter) == "items":
             srckeys = _dict_reads(n.iter.func.value)
             src_attr = n.iter.func.value.attr if isinstance(n.iter.func.value, ast.Attribute) else None
